@@ -143,7 +143,13 @@ def gen_case(rng, tier, stats, allow_tiny=True, want_dict=None):
         if not allow_tiny and v < -int(140000 * lw):
             v = -rng.range(0, 5000)
         return v
+    satcase = rng.chance(0.08)   # null arcs at and around log-zero: the closure's saturating sum (D51)
+    if satcase:
+        stats["branches"]["log_zero_nulls"] = stats["branches"].get("log_zero_nulls", 0) + 1
+
     def nlp():
+        if satcase and rng.chance(0.5):
+            return rng.choice([-536870912, -536870911, -300000000, -268435456, -268435457, -400000000, -178956971])
         v = lp()
         if v < -int(140000 * lw) and rng.chance(0.8):
             v = -rng.range(0, 60)
@@ -407,6 +413,26 @@ def oracle_lines(d1, d2, blen):
     return [f"nfaeq {fl} {bs} {g1} {g2}", f"besteq {blen} {fl} {bs} {g1} {g2}"], names
 
 
+def nosat(d, z):
+    """no simple null path of the grammar weighs less than z (all-pairs max-plus over the null arcs)"""
+    best = {}
+    nodes = set()
+    for (a, b, lp, w) in d["arcs"]:
+        if w < 0 and a != b:
+            best[(a, b)] = max(best.get((a, b), lp), lp)
+            nodes |= {a, b}
+    for k in nodes:
+        for i in nodes:
+            if (i, k) not in best:
+                continue
+            for j in nodes:
+                if (k, j) in best and i != j:
+                    v = best[(i, k)] + best[(k, j)]
+                    if v > best.get((i, j), v - 1):
+                        best[(i, j)] = v
+    return all(v >= z for v in best.values())
+
+
 def py_best(d, sent):
     """independent max-plus best path (Bellman-Ford over null arcs), for cross-checking the driver's bestLogProb"""
     n = max([d["n"], d["start"] + 1, d["final"] + 1] + [max(a, b) + 1 for (a, b, _, _) in d["arcs"]])
@@ -550,7 +576,7 @@ class Runner:
         self.c, self.binp, self.drv = c, binp, drv
         self.stats = {"oracle_nfaeq": 0, "oracle_besteq": 0, "oracle_errors": 0, "idempotence_checks": 0,
                       "roundtrips": 0, "roundtrips_skipped_below_float32": 0, "roundtrip_exact_logp": 0, "roundtrip_total_arcs": 0,
-                      "best_sentences": 0, "best_accepting": 0, "best_crosschecks": 0, "best_crosscheck_failures": [],
+                      "best_sentences": 0, "best_accepting": 0, "best_crosschecks": 0, "best_oracle_skipped_saturating": 0, "saturating_closures": 0, "best_crosscheck_failures": [],
                       "branch_outcomes": {}, "read_ok": 0, "read_err": 0,
                       "closure_added": 0, "closure_raised_or_added_cases": 0}
 
@@ -595,13 +621,16 @@ class Runner:
         for ci, (case, ho) in enumerate(zip(cases, percase)):
             lw = case_lw(case)
             last_w, dinfo, prev_dump, since = None, None, None, []
+            case_zero = -536870912
             for oi, op in enumerate(case):
                 o = ho[oi] if oi < len(ho) else None
                 w = op.split()
                 if o is None:
                     break
                 if w[0] == "new":
-                    script.append(" ".join(w[:5])); tags.append(("main", ci, oi))
+                    zero = o.split()[1] if o.startswith("ok ") else "-536870912"
+                    case_zero = int(zero)
+                    script.append(" ".join(w[:5]) + " " + zero); tags.append(("main", ci, oi))
                 elif w[0] == "silence":
                     lp = o.split()[2] if o.startswith("v ") and len(o.split()) == 3 else "0"
                     script.append(f"silence {w[1]} {w[2]} {lp}"); tags.append(("main", ci, oi))
@@ -644,6 +673,11 @@ class Runner:
                         d1, d2 = parse_dump(prev_dump), parse_dump(o)
                         if d1 and d2:
                             ol, names = oracle_lines(d1, d2, blen)
+                            if not nosat(d1, case_zero):
+                                # a simple null path below log-zero: the closure saturates there (D51) and the
+                                # best-probability comparison is outside the property (stated assumption)
+                                ol = ol[:1]
+                                self.stats["best_oracle_skipped_saturating"] += 1
                             for l in ol:
                                 script.append(l); tags.append(("oracle", ci, oi, names, list(since)))
                     dd = parse_dump(o)
@@ -893,7 +927,10 @@ def check(c):
                   "clang ASan/UBSan as observer of memory errors and signed overflow in fsg_model.c",
                   "the iteration order of the C hash tables is not modelled: results are compared as multisets "
                   "(justified by C13_closure_unique: the closed grammar does not depend on the order)"]
-    c.assumptions += ["null-transition log-probabilities are <= 0 (the C code aborts with E_FATAL otherwise) and every null-path weight stays above log-zero (-2^29 at shift 0): below it the pinned code overflows int32 (D51, found by C05) and the repaired code saturates, i.e. treats the path as probability zero; the model adds exactly",
+    c.assumptions += ["null-transition log-probabilities are <= 0 (the C code aborts with E_FATAL otherwise) and >= log-zero (-2^29, what logmath returns for probability 0)",
+                      "best-probability preservation by the closure is claimed (theorem and oracle) only when no simple null path is below log-zero; "
+                      "there the code saturates (fix D51, mirrored by the model: exact arc comparison covers it) and only language preservation, "
+                      "termination, idempotence and the floored all-pairs characterisation are claimed",
                       "filler words and alternate->base relation are the dictionary's: a filler is a word whose base form starts with '<', '+' or '['; "
                       "the base of 'w(k)' is 'w' (dict_word2basestr)",
                       "probabilities inside float32's normal range (the reader converts through float32)",
@@ -969,6 +1006,16 @@ def check(c):
                 batch = []
         if batch:
             judge(batch, "exhaustive 3-state null graphs", blen=1)
+        # the same around log-zero: every sum saturates or lands exactly on -2^29
+        batch = []
+        for ops in exhaustive_null_graphs([-268435456, -536870912] if c.tier == "quick" else [-268435456, -300000000, -536870912]):
+            batch.append(ops)
+            exhaustive += 1
+            if len(batch) >= 1500:
+                judge(batch, "exhaustive 3-state null graphs at log-zero", blen=1)
+                batch = []
+        if batch:
+            judge(batch, "exhaustive 3-state null graphs at log-zero", blen=1)
     c.oblige("correspondence: real fsg_model.c / fsg_search.c:83-169 (ASan/UBSan) = model on every generated case "
              "(arcs, vocabulary, filler/alt bits, return values, written text, read result)", allok)
     c.oblige("oracle on the implementation: language and best log-probability over real words unchanged by closure / "
@@ -989,6 +1036,7 @@ def check(c):
                   "language_equivalence_oracles_run": st["oracle_nfaeq"], "best_probability_oracles_run": st["oracle_besteq"],
                   "best_probability_sentences_compared": st["best_sentences"], "of_which_accepted": st["best_accepting"],
                   "best_probability_crosschecks_driver_vs_checker": st["best_crosschecks"],
+                  "best_probability_oracles_skipped_simple_null_path_below_log_zero": st["best_oracle_skipped_saturating"],
                   "idempotence_checks_on_implementation": st["idempotence_checks"],
                   "closure_cases_that_changed_the_grammar": st["closure_raised_or_added_cases"],
                   "null_links_added_by_closure": st["closure_added"],
